@@ -2,7 +2,7 @@
 from .. import protocol, pipeline
 
 ID = 'C02'
-PROP_FILES = ['C02', 'C02s', 'C02Verbatim']
+PROP_FILES = ['C02', 'C02s', 'C02Verbatim', 'C02Once']
 MODULES = ['OFModel.Zmq.Receiver', 'OFModel.Zmq.Sender', 'OFModel.Gen.Facts']
 RULE = ('receiver: adversarial wire feeds (see C01) incl. duplicated / stale / restarting id streams and topic names that are frame-prefixes of others; '
         'oracle: returned ids strictly increasing, every delivered frame is the payload published for that (source, id, topic) under the name the '
